@@ -65,11 +65,13 @@ type Config struct {
 	// serializers holds all per-type and per-interface serializer entries
 	// evaluated in registration order by [Config.Serializer].
 	// Populated only during construction; never mutated afterwards.
-	serializers  map[reflect.Type]Serializer
-	maxIdleConns int
-	dialTimeout  time.Duration
-	keepAlive    time.Duration
-	tlsInfo      *gtls.Info
+	serializers map[reflect.Type]Serializer
+	// serializerOrder records the first-registration order of the keys of serializers.
+	serializerOrder []reflect.Type
+	maxIdleConns    int
+	dialTimeout     time.Duration
+	keepAlive       time.Duration
+	tlsInfo         *gtls.Info
 }
 
 var _ validation.Validator = (*Config)(nil)
@@ -96,7 +98,7 @@ func NewConfig(bindAddr string, bindPort int, opts ...Option) *Config {
 	}
 
 	// Register the default proto serializer for all proto.Message implementations.
-	cfg.serializers[reflect.TypeFor[proto.Message]()] = NewProtoSerializer()
+	cfg.setSerializer(reflect.TypeFor[proto.Message](), NewProtoSerializer())
 
 	// apply the options
 	for _, opt := range opts {
@@ -123,7 +125,7 @@ func DefaultConfig() *Config {
 	}
 
 	// Register the default proto serializer for all proto.Message implementations.
-	cfg.serializers[reflect.TypeFor[proto.Message]()] = NewProtoSerializer()
+	cfg.setSerializer(reflect.TypeFor[proto.Message](), NewProtoSerializer())
 
 	return cfg
 }
@@ -195,17 +197,38 @@ func (x *Config) Serializer(msg any) Serializer {
 		return nil
 	}
 
-	for typ, serializer := range x.serializers {
-		if typ.Kind() == reflect.Interface {
-			if msgType.Implements(typ) {
-				return serializer
-			}
-		} else if msgType == typ {
-			return serializer
+	// 1. exact concrete type
+	if serializer, ok := x.serializers[msgType]; ok && msgType.Kind() != reflect.Interface {
+		return serializer
+	}
+
+	// 2. first registered interface the message implements
+	for _, typ := range x.serializerOrder {
+		if typ.Kind() == reflect.Interface && msgType.Implements(typ) {
+			return x.serializers[typ]
 		}
 	}
 
 	return nil
+}
+
+// setSerializer stores the entry and remembers when its key was first registered.
+func (x *Config) setSerializer(typ reflect.Type, serializer Serializer) {
+	if _, ok := x.serializers[typ]; !ok {
+		x.serializerOrder = append(x.serializerOrder, typ)
+	}
+	x.serializers[typ] = serializer
+}
+
+// SerializerEntries returns the registered entries in registration order.
+func (x *Config) SerializerEntries() ([]reflect.Type, []Serializer) {
+	types := make([]reflect.Type, 0, len(x.serializerOrder))
+	serializers := make([]Serializer, 0, len(x.serializerOrder))
+	for _, typ := range x.serializerOrder {
+		types = append(types, typ)
+		serializers = append(serializers, x.serializers[typ])
+	}
+	return types, serializers
 }
 
 // Serializers returns a copy of the registered serializer map keyed by
